@@ -190,5 +190,245 @@ def _root_name(e):
     return e.id if isinstance(e, ast.Name) else None
 
 
+# ---------------------------------------------------------------- MP (Huber), UNIT, SEL, AXIS, CONTR
+
+from fractions import Fraction                      # noqa: E402
+from .lie_common import rule_masks                  # noqa: E402
+
+# documented meaning of the constructor parameters, in powers of the residual unit u (the kernel argument is |r|^2 : u^2)
+BASE_UNITS = {'Huber.delta': 1, 'PseudoHuber.delta': 1, 'Cauchy.delta': 1, 'SoftLOne.delta': 1, 'Arctan.delta': 1,
+              'Tolerant.a': 2, 'Tolerant.b': 2, 'Scale.delta': 0}
+UNIT_EXEMPT = {'SoftLOne': 'documented closed form 2(delta*sqrt(1/delta^2 + x) - 1) is not dimensionally homogeneous by design'}
+
+
+class UnitErr(Exception):
+    pass
+
+
+def _units(e, env, problems):
+    """unit exponent (Fraction) of e, None = dimensionless constant compatible with anything (literal zero) ; records mismatches"""
+    if isinstance(e, ast.Constant):
+        if isinstance(e.value, (int, float)) and e.value == 0:
+            return None
+        return Fraction(0)
+    if isinstance(e, ast.Name):
+        return env.get(e.id, 'unknown')
+    if isinstance(e, ast.Attribute):
+        d = dotted(e)
+        if d in env:
+            return env[d]
+        if e.attr in ('pi', 'e'):
+            return Fraction(0)
+        return 'unknown'
+    if isinstance(e, ast.UnaryOp):
+        return _units(e.operand, env, problems)
+    if isinstance(e, ast.Subscript):
+        return _units(e.value, env, problems)
+    if isinstance(e, ast.BinOp):
+        l, r = _units(e.left, env, problems), _units(e.right, env, problems)
+        if 'unknown' in (l, r):
+            return 'unknown'
+        if isinstance(e.op, ast.Mult):
+            return (l or Fraction(0)) + (r or Fraction(0))
+        if isinstance(e.op, ast.Div):
+            return (l or Fraction(0)) - (r or Fraction(0))
+        if isinstance(e.op, ast.Pow):
+            if isinstance(e.right, ast.Constant) and isinstance(e.right.value, (int, float)):
+                return (l or Fraction(0)) * Fraction(e.right.value).limit_denominator(12)
+            return 'unknown'
+        if isinstance(e.op, (ast.Add, ast.Sub)):
+            if l is None:
+                return r
+            if r is None:
+                return l
+            if l != r:
+                problems.append((e, 'adds/subtracts quantities of unit u^%s and u^%s in `%s`' % (l, r, src(e)[:60])))
+            return l
+        return 'unknown'
+    if isinstance(e, ast.Compare):
+        l = _units(e.left, env, problems)
+        r = _units(e.comparators[0], env, problems)
+        if 'unknown' not in (l, r) and l is not None and r is not None and l != r:
+            problems.append((e, 'compares a quantity of unit u^%s with one of unit u^%s in `%s`' % (l, r, src(e)[:60])))
+        return Fraction(0)
+    if isinstance(e, ast.Call):
+        d = dotted(e.func) or ''
+        name = d.split('.')[-1] if d else (e.func.attr if isinstance(e.func, ast.Attribute) else '')
+        recv = e.func.value if isinstance(e.func, ast.Attribute) and not d.startswith(('torch.', 'math.')) else (e.args[0] if e.args else None)
+        if name in ('sqrt',):
+            u = _units(recv, env, problems)
+            return u if u in ('unknown', None) else u / 2
+        if name in ('log', 'exp', 'arctan', 'atan', 'log1p', 'expm1', 'tanh', 'sin', 'cos'):
+            u = _units(recv, env, problems)
+            if u not in ('unknown', None) and u != 0:
+                problems.append((e, 'transcendental function `%s` applied to a quantity of unit u^%s' % (name, u)))
+            return Fraction(0)
+        if name in ('abs', 'clone', 'clamp', 'sum', 'mean', 'zeros_like', 'square_'):
+            return _units(recv, env, problems) if name != 'zeros_like' else None
+        if name == 'square':
+            u = _units(recv, env, problems)
+            return u if u in ('unknown', None) else u * 2
+        if name in ('all', 'any'):
+            return _units(recv, env, problems)
+        if name == '$upd':
+            a = _units(e.args[0], env, problems)
+            b = _units(e.args[2], env, problems)
+            if isinstance(e.args[1], ast.Subscript):
+                _units(e.args[1].slice, env, problems)
+            if a is None:
+                return b
+            if 'unknown' not in (a, b) and b is not None and a != b:
+                problems.append((e, 'stores a quantity of unit u^%s into a tensor of unit u^%s' % (b, a)))
+            return a
+        return 'unknown'
+    return 'unknown'
+
+
+def rule_unit(repo, tier):
+    res = RuleResult('C09.UNIT', 'dimensional homogeneity of the kernels: with the argument in u^2 (squared residual) and the constructor '
+                     'parameters in their documented units, every sum / comparison / masked store combines equal units, transcendental '
+                     'functions take dimensionless arguments and the value returned is again in u^2', floor=6)
+    for c in kernel_classes(repo):
+        if c.name in UNIT_EXEMPT:
+            res.notes.append('%s exempt: %s' % (c.name, UNIT_EXEMPT[c.name]))
+            continue
+        init = c.methods.get('__init__')
+        env = {}
+        if init is None:
+            raise AnalysisError('C09.UNIT: %s has no __init__' % c.name)
+        for p in init.pos_params[1:]:
+            key = '%s.%s' % (c.name, p)
+            if key not in BASE_UNITS:
+                raise AnalysisError('C09.UNIT: no documented unit for constructor parameter %s' % key)
+            env[p] = Fraction(BASE_UNITS[key])
+        problems = []
+        inl = inline_straight(init.node)
+        for k, v in inl.env.items():
+            if k.startswith('self.') and isinstance(v, ast.AST):
+                env[k] = _units(v, env, problems)
+        f = c.methods['forward']
+        env2 = {k: v for k, v in env.items() if k.startswith('self.')}
+        env2[f.pos_params[1]] = Fraction(2)
+        rets = returns_of(f.node)
+        out_units = []
+        finl = inline_straight(f.node)
+        for st, _e in finl.log:
+            if isinstance(st, ast.Assert):
+                continue
+        for r in rets:
+            v = inline_straight(f.node, upto=r).value(r.value)
+            out_units.append(_units(v, env2, problems))
+        res.inst({'function': f.fq, 'attribute_units': {k: str(v) for k, v in env2.items()}, 'returns': [str(u) for u in out_units],
+                  'mismatches': len(problems)}, f.fq)
+        seen = set()
+        for node, msg in problems:
+            if msg not in seen:
+                seen.add(msg)
+                res.add(Finding('C09.UNIT', f, '%s: %s' % (c.name, msg), construct=msg[:120]))
+        for u in out_units:
+            if u not in ('unknown', None) and u != 2:
+                res.add(Finding('C09.UNIT', f, '%s.forward returns a quantity of unit u^%s; a kernel maps u^2 to u^2' % (c.name, u), construct='return unit'))
+            if u == 'unknown':
+                res.unresolved += 1
+    return res
+
+
+def _sq_axis(e):
+    """axis over which a squared norm  X.square().sum(axis)  /  (X*X).sum(axis) / X.pow(2).sum(axis)  is taken, with X name"""
+    for n in ast.walk(e):
+        if isinstance(n, ast.Call) and isinstance(n.func, ast.Attribute) and n.func.attr == 'sum' and n.args:
+            inner = n.func.value
+            base = None
+            if isinstance(inner, ast.Call) and isinstance(inner.func, ast.Attribute) and inner.func.attr in ('square',):
+                base = inner.func.value
+            elif isinstance(inner, ast.Call) and isinstance(inner.func, ast.Attribute) and inner.func.attr == 'pow' and inner.args and src(inner.args[0]) == '2':
+                base = inner.func.value
+            elif isinstance(inner, ast.BinOp) and isinstance(inner.op, ast.Pow) and src(inner.right) == '2':
+                base = inner.left
+            elif isinstance(inner, ast.BinOp) and isinstance(inner.op, ast.Mult) and src(inner.left) == src(inner.right):
+                base = inner.left
+            if base is not None:
+                return src(n.args[0]), dotted(base)
+    return None
+
+
+def rule_sel_axis(repo, tier):
+    res = RuleResult('C09.AXIS', 'the kernel argument is the squared norm over the last axis in the three places that must agree (robust loss, '
+                     'FastTriggs, Triggs); the robust loss pairs kernels with residuals like the optimisers pair correctors (one for all, '
+                     'or one per residual)', floor=4)
+    sites = [(OPT, 'RobustModel.loss'), (COR, 'FastTriggs.forward'), (COR, 'Triggs.compute_grads')]
+    axes = {}
+    for mod, q in sites:
+        f = repo.func(mod, q)
+        found = None
+        for n in ast.walk(f.node):
+            if isinstance(n, ast.expr):
+                a = _sq_axis(n)
+                if a:
+                    found = a
+                    break
+        axes[q] = found
+        res.inst({'function': f.fq, 'squared_norm': found}, f.fq)
+        if found is None:
+            res.add(Finding('C09.AXIS', f, '%s no longer forms the squared norm X.square().sum(axis) of the residual' % q, construct='no sqnorm'))
+        elif found[0] != '-1':
+            res.add(Finding('C09.AXIS', f, '%s reduces the squared residual over axis %s; the loss and both correctors must agree on the last axis' % (q, found[0]),
+                            construct='axis ' + found[0]))
+    # selection in RobustModel.loss
+    f = repo.func(OPT, 'RobustModel.loss')
+    pths, _ = paths.function_paths(f.node, limit=256)
+    ok_multi = ok_single = False
+    for ev, ex in pths:
+        for e in ev:
+            if e[0] == 'assume' and 'len(self.kernel)' in src(e[1]):
+                multi = (e[2] and ('> 1' in src(e[1]) or '>= 2' in src(e[1]))) or (not e[2] and ('== 1' in src(e[1]) or '<= 1' in src(e[1]) or '< 2' in src(e[1])))
+                body = [x[1] for x in ev if x[0] == 'stmt']
+                txt = ' '.join(src(b) for b in body)
+                if multi and 'zip(self.kernel, residuals)' in txt.replace('  ', ' '):
+                    ok_multi = True
+                if not multi and 'self.kernel[0]' in txt:
+                    ok_single = True
+    res.inst({'function': f.fq, 'one_kernel_for_all': ok_single, 'one_kernel_per_residual': ok_multi}, f.fq + 'sel')
+    if not (ok_multi and ok_single):
+        res.add(Finding('C09.SEL', f, 'RobustModel.loss no longer selects kernel[0] for a single kernel and zip(kernel, residuals) otherwise', construct='selection'))
+    return res
+
+
+def rule_contr(repo, tier):
+    res = RuleResult('C09.CONTR', 'Triggs: the rank-one Jacobian correction contracts over the residual dimension (J\' = sJ - alpha/x * R (R^T sJ)): '
+                     'the term subtracted from the scaled Jacobian rows is produced by a contraction over d (einsum / matmul / sum), not by an '
+                     'elementwise product', floor=1)
+    f = repo.func(COR, 'Triggs.forward')
+    R = TV([Bt, sym('d')])
+    J = TV([sym('Nd'), sym('k')])
+    stores = []
+    it = Interp(repo, lambda node, msg: None)
+    it.store_hook = lambda target, base, tgt, rhs, st: stores.append((target, base, tgt, rhs, st))
+    it.run_function(f, {'R': R, 'J': J, 'self.func': TOP, 'self.kernel': TOP})
+    from ..expr import returns_of as _ro
+    jname = None
+    for r in _ro(f.node):
+        if isinstance(r.value, ast.Tuple) and len(r.value.elts) == 2:
+            jname = _root_name(r.value.elts[1])
+    n = 0
+    for target, base, tgt, rhs, st in stores:
+        if _root_name(target) != jname:
+            continue
+        n += 1
+        contr = getattr(rhs, 'contr', frozenset()) if isinstance(rhs, TV) else None
+        ok = contr is not None and sym('d') in contr
+        res.inst({'function': f.fq, 'store': src(target)[:40], 'rhs': repr(rhs), 'contracted': sorted(str(c[1]) for c in (contr or [])), 'ok': ok},
+                 src(target))
+        if contr is None:
+            res.unresolved += 1
+        elif not ok:
+            res.add(Finding('C09.CONTR', f, 'the correction stored into the returned Jacobian is computed without contracting over the residual '
+                            'dimension d (contracted: %s): an elementwise product replaces R (R^T J)' % sorted(str(c[1]) for c in contr), node=st))
+    if n == 0:
+        raise AnalysisError('C09.CONTR: no masked store into the returned Jacobian found in Triggs.forward')
+    return res
+
+
 def rules(repo, tier):
-    return [rule_guard(repo, tier), rule_kind(repo, tier)]
+    return [rule_guard(repo, tier), rule_kind(repo, tier)] + rule_masks(repo, 'C09.MP', 'C09.GD', [(KER, 'Huber.forward')], floor=1) + \
+        [rule_unit(repo, tier), rule_sel_axis(repo, tier), rule_contr(repo, tier)]
